@@ -299,6 +299,12 @@ Theorem C04_assembler_dtype_holds_every_block :
 Proof. exact ba_dtype_holds. Qed.
 Print Assumptions C04_assembler_dtype_holds_every_block.
 
+(** an explicitly requested dtype is the dtype of the result, whatever the fill value *)
+Theorem C04_assembler_explicit_dtype_wins :
+  forall d r f, ba_extract_dtype_opt d (Some r) f = r.
+Proof. exact ba_extract_dtype_explicit. Qed.
+Print Assumptions C04_assembler_explicit_dtype_wins.
+
 (** a requested Y/X window (ry, rx) — ints, open or negative slices — is normalised
     against the mosaic shape (C17: the normalised slice selects the same elements) and
     the result has the extra axes unchanged *)
